@@ -79,7 +79,7 @@ func runC01(c *pure.Ctx, p Pop) {
 			return
 		}
 		r := NewRef(p, h.T0, h.T0)
-		if msg := h.CheckHeap(r, 3*time.Hour); msg != "" {
+		if msg := h.CheckHeap(r, 500*24*time.Hour); msg != "" {
 			c.Violate("heap-after-init", fmt.Sprintf("population %s after Init: %s", p.Name, msg))
 		}
 		var trace []string
@@ -94,7 +94,7 @@ func runC01(c *pure.Ctx, p Pop) {
 				c.Violate("stream", fmt.Sprintf("population %s ticks %v: %s", p.Name, trace, msg))
 				return
 			}
-			if msg := h.CheckHeap(r, 3*time.Hour); msg != "" {
+			if msg := h.CheckHeap(r, 500*24*time.Hour); msg != "" {
 				c.Violate("heap", fmt.Sprintf("population %s ticks %v: %s", p.Name, trace, msg))
 				return
 			}
